@@ -28,7 +28,7 @@ ASSUMPTIONS = [
     "thread interleavings are those the GIL permits; switches are forced between statements via sys.monitoring",
 ]
 GATES = ["sequential_parses", "threaded_parses", "in_parser_thread_switches", "digest_checks", "failing_entries",
-         "baseline_vs_refmodel", "fresh_process_baseline_compared", "baseline_labels_vs_pinned"]
+         "baseline_vs_refmodel", "fresh_process_baseline_compared", "baseline_labels_vs_pinned", "cold_start_races"]
 
 
 def outcome_ctor(payload, labelmsm):
@@ -189,6 +189,52 @@ def fresh_single(ctx, index):
         r = subprocess.run([sys.executable, "-B", "-c", code], capture_output=True, text=True, timeout=600)
         return r.stdout.strip().splitlines()[-1] if r.returncode == 0 else None
     except Exception:
+        return None
+
+
+def cold_start_race(ctx, k, nthreads=8):
+    """Concurrent parses as the very FIRST use of the library in a fresh interpreter (lazily built
+    state must be race-free too). Returns list of (entry index, outcome hash) or None."""
+    import json
+    import subprocess
+
+    from vf import REPO_SRC, VERIF_DIR
+
+    code = f"""
+import sys, json, random, threading
+sys.path.insert(0, {VERIF_DIR!r})
+import vf
+from vf import monitors
+from vf.checks import c13
+c = c13.build_corpus({ctx.seed * 101 + 17}, {2 if ctx.quick else 6})
+r = random.Random({k})
+picks = [r.sample(range(len(c)), 24) for _ in range({nthreads})]
+out = []
+lock = threading.Lock()
+bar = threading.Barrier({nthreads})
+def work(idxs):
+    bar.wait()
+    for i in idxs:
+        h = c13.outcome_hash(c13.OPS[c[i]['op']](c[i]['data'], c[i]['labelmsm']))
+        with lock:
+            out.append((i, h))
+sys.setswitchinterval(1e-6)
+inj = monitors.YieldInjector({REPO_SRC!r}, random.Random({k} + 1), prob=0.03)
+inj.start()
+ths = [threading.Thread(target=work, args=(p,)) for p in picks]
+[t.start() for t in ths]
+[t.join() for t in ths]
+inj.stop()
+print(json.dumps({{"out": out, "switches": inj.switches}}))
+"""
+    try:
+        r = subprocess.run([sys.executable, "-B", "-c", code], capture_output=True, text=True, timeout=900)
+        if r.returncode != 0:
+            ctx.note("cold_start_error", r.stderr[-300:])
+            return None
+        return json.loads(r.stdout.strip().splitlines()[-1])
+    except Exception as e:
+        ctx.note("cold_start_error", repr(e))
         return None
 
 
@@ -391,6 +437,21 @@ def run(ctx):
                       f"outcome {o} vs history-free {base[i][0:2]}", {"kind": "thread", "entry": i, "tag": e["tag"]})
         return
     ctx.case(f"threads|{counts[0]}|{ctx.worker}", True)
+    # cold-start races: fresh interpreters whose first library calls are concurrent
+    for j in range(2 if ctx.quick else 10):
+        res = cold_start_race(ctx, ctx.seed * 1000 + ctx.worker * 50 + j)
+        if res is None:
+            continue
+        for i, h in res["out"]:
+            if h != outcome_hash(base[i]):
+                e = corpus[i]
+                ctx.violation("thread-dependence", f"{e['op']}({e['tag']}) parsed concurrently as the first use of the "
+                              f"library in a fresh interpreter differs from the history-free result",
+                              {"kind": "cold-start", "entry": i, "tag": e["tag"]})
+                return
+        ctx.hit("cold_start_races")
+        ctx.hit("cold_start_parses", len(res["out"]))
+        ctx.hit("in_parser_thread_switches", res["switches"])
     if not check_digest(ctx, digest0, "after the threaded phase"):
         return
     ctx.sample({"corpus_entries": n, "ops": sorted(OPS), "threads": [2, 8] if ctx.quick else [2, 4, 8, 16],
